@@ -154,6 +154,37 @@ impl Runner {
             }
             return "ok | restore".to_string();
         }
+        if let Op::Query(q) = op {
+            let e = self.kinds.entry(op_kind(op).to_string()).or_insert((0, 0));
+            return match q {
+                Query::Hist(start, limit) => match self.chain.hub_history_page(*start, *limit) {
+                    Ok(page) => {
+                        e.0 += 1;
+                        // the page the query is specified to return, from the entries read one by one
+                        let lim = limit.unwrap_or(10).min(100) as usize;
+                        let want: Vec<_> = self.chain.hub_history_stored().into_iter().filter(|h| start.map_or(true, |s| h.id > s)).take(lim).collect();
+                        if self.inst.len() == 6 && want != page {
+                            self.violations.push((self.history, self.line_no, Violation {
+                                prop: "C07",
+                                class: "all-history-page-wrong".into(),
+                                detail: format!("AllHistory(start_from {:?}, limit {:?}) returned batches {:?}; the stored entries above the start are {:?}", start, limit, page.iter().map(|h| h.id).collect::<Vec<_>>(), want.iter().map(|h| h.id).collect::<Vec<_>>()),
+                            }));
+                        }
+                        if page.len() > 1 {
+                            self.bump("history_pages_of_several_entries");
+                        }
+                        if page.len() == lim && lim > 0 {
+                            self.bump("history_pages_full");
+                        }
+                        format!("ok | page=[{}]", page.iter().map(obs::hist_s).collect::<Vec<_>>().join(";"))
+                    }
+                    Err(er) => {
+                        e.1 += 1;
+                        format!("err:{} | page=[]", er.replace('\n', " ").replace('|', "/"))
+                    }
+                },
+            };
+        }
         let kind = op_kind(op);
         let judged = self.inst.len() == 6;
         let pre_chain = if judged { Some(self.chain.clone()) } else { None };
